@@ -319,6 +319,10 @@ def encode_for_model(seq, docs=None):
         keyof[d.uri] = d.key
     disk = {"f1": DISK["f1"], "f2": DISK["f2"], "f8": None}     # files of the package under src/
 
+    def mk(key):
+        # a document addressed under another spelling of its URI: same file, spelling 1 (`f1~1`)
+        return key.split("~")[0] + ("~1" if "~" in key else "")
+
     def load():
         # every .gleam file of the package that is on disk is read into the store (not opened)
         for k in ("f1", "f2", "f8"):
@@ -327,27 +331,29 @@ def encode_for_model(seq, docs=None):
 
     for op in seq:
         if op[0] == "open":
-            if (op[1].key in ("f1", "f2", "f5", "f6", "f8")) and not loaded:
+            if (op[1].key.split("~")[0] in ("f1", "f2", "f5", "f6", "f8")) and not loaded:
                 # the first didOpen of a file of the package loads every file of the package from disk
                 loaded = True
                 load()
-            out.append(f"open:{op[1].key}:{hexs(op[2])}")
+            out.append(f"open:{mk(op[1].key)}:{hexs(op[2])}")
         elif op[0] == "change":
             cs = []
             for (rng_, ins, _) in op[2]:
                 r = "-" if rng_ is None else ",".join(map(str, rng_[:4]))
                 cs.append(f"{r}@{hexs(ins)}")
-            out.append(f"change:{op[1].key}:{'|'.join(cs)}")
+            out.append(f"change:{mk(op[1].key)}:{'|'.join(cs)}")
         elif op[0] == "close":
-            out.append(f"close:{op[1].key}")
+            out.append(f"close:{mk(op[1].key)}")
         elif op[0] == "watch":
             # the harness changes the disk for all events of a notification first, then sends it
-            for (act, uri, typ, text) in op[2]:
+            for (act, uri, typ, text) in [e[:4] for e in op[2]]:
                 k = keyof.get(uri) or ("f8" if uri.endswith("/src/c.gleam") else None)
                 if k in disk and act != "none":
                     disk[k] = text if act == "write" else None
-            for (act, uri, typ, text) in op[2]:
+            for e in op[2]:
+                (act, uri, typ, text) = e[:4]
                 k = keyof.get(uri) or ("f8" if uri.endswith("/src/c.gleam") else None)
+                spell = "~1" if (len(e) > 4 and "~" in (keyof.get(e[4]) or "")) else ""
                 if not uri.startswith("file://"):
                     continue                                  # not a file: skipped by the server
                 if k in disk:
@@ -364,13 +370,13 @@ def encode_for_model(seq, docs=None):
                 if typ in (1, 2) and st.startswith("R") and not loaded and k in ("f1", "f2", "f8", "f90"):
                     loaded = True
                     load()
-                out.append(f"watch:{k}:{1 if typ == 3 else 0}:{st}")
+                out.append(f"watch:{k}{spell}:{1 if typ == 3 else 0}:{st}")
         elif op[0] in ("xreq", "xnotif"):
             continue        # no effect on the documents the model tracks; oracle on the implementation only
         else:
             # semantic tokens carry no position
             l, c = (0, 0) if "semanticTokens" in op[2] else (op[3], op[4])
-            out.append(f"req:{op[5]}:{op[1].key}:{l}:{c}")
+            out.append(f"req:{op[5]}:{mk(op[1].key)}:{l}:{c}")
     return " ".join(out)
 
 
@@ -467,6 +473,31 @@ def run_sequence(root, docs, seq, offers=None, disk_extra=None):
     return obs
 
 
+def model_tie(res, seq, docs, obs, mline):
+    """the model's prediction for a session against what the real binary did: no crash, final texts of the file documents, error answers"""
+    outs, _, mdocs = mline.partition(" | ")
+    mtexts = {}
+    for kv in mdocs.split(" "):
+        if "=" in kv:
+            k, h = kv.split("=")
+            mtexts[k] = common.unhexs(h)
+    if "CRASH" in outs:
+        res.disagreements.append((encode_for_model(seq, docs)[:200], "alive", "model predicts a crash"))
+        return
+    for d in docs:
+        if d.key.startswith("f"):
+            got = obs["texts"].get(d.key)
+            if got != mtexts.get(d.key):
+                res.disagreements.append((encode_for_model(seq, docs)[:300], f"{d.key}={got!r}", f"{d.key}={mtexts.get(d.key)!r}"))
+                break
+    mresp = dict(x[1:].split("=") for x in outs.split(" ") if x.startswith("r"))
+    for rid, v in obs["responses"].items():
+        # the model only predicts errors caused by the document store / position conversion
+        if mresp.get(str(rid)) == "err" and v == "ok":
+            # a request on an unknown document or beyond the document answered ok?
+            res.disagreements.append((encode_for_model(seq, docs)[:300], f"r{rid}=ok", f"r{rid}=err"))
+
+
 def run_c15(res, tier, seed):
     lsp.build_glas()
     n_seq = 120 if tier == "quick" else 2500
@@ -526,28 +557,7 @@ def run_c15(res, tier, seed):
                 exp = p_text.strip_cr(text)
                 if got != exp:
                     res.add_violation("C15/text-diverged", f"server text {got!r} != editor text {exp!r} for {key}", replay)
-        # model tie
-        outs, _, mdocs = mline.partition(" | ")
-        mtexts = {}
-        for kv in mdocs.split(" "):
-            if "=" in kv:
-                k, h = kv.split("=")
-                mtexts[k] = common.unhexs(h)
-        if "CRASH" in outs:
-            res.disagreements.append((encode_for_model(seq, docs)[:200], "alive", "model predicts a crash"))
-            continue
-        for d in docs:
-            if d.key.startswith("f"):
-                got = obs["texts"].get(d.key)
-                if got != mtexts.get(d.key):
-                    res.disagreements.append((encode_for_model(seq, docs)[:300], f"{d.key}={got!r}", f"{d.key}={mtexts.get(d.key)!r}"))
-                    break
-        mresp = dict(x[1:].split("=") for x in outs.split(" ") if x.startswith("r"))
-        for rid, v in obs["responses"].items():
-            # the model only predicts errors caused by the document store / position conversion
-            if mresp.get(str(rid)) == "err" and v == "ok":
-                # a request on an unknown document or beyond the document answered ok?
-                res.disagreements.append((encode_for_model(seq, docs)[:300], f"r{rid}=ok", f"r{rid}=err"))
+        model_tie(res, seq, docs, obs, mline)
     res.cov["distinct_nontrivial"] = distinct
     res.cov["message_distribution"] = kinds
     res.cov["rule"] = (f"{n_seq} seeded message sequences (4-11 messages) over 5 documents (two files of a package, a free-standing file, an "
@@ -685,6 +695,13 @@ def run_respelled_sessions(res, tier, seed):
     finally:
         shutil.rmtree(base, ignore_errors=True)
     res.cov["respelled_sessions"] = n
+    mreqs = ["server\t" + encode_for_model(j[2], j[1]) for j in jobs]
+    mo, rc = common.run_lines(common.DRIVER_BIN, mreqs)
+    if len(mo) != len(mreqs):
+        raise Broken("Lean driver died", "on sessions with one file under two URI spellings")
+    for j, obs, mline in zip(jobs, observations, mo):
+        if obs["alive"]:
+            model_tie(res, j[2], j[1], obs, mline)
     what = ["deleted under the other spelling", "changed on disk under the other spelling", "closed under the other spelling",
             "edited under the other spelling", "opened under both spellings, deleted under the first"]
     for (root, docs, seq, client, variant), obs in zip(jobs, observations):
